@@ -51,6 +51,9 @@ impl ProgProperty for C01 {
         }
         None
     }
+    fn fuzz_target(&self) -> Option<&'static str> {
+        Some("prog_ir")
+    }
     fn floors(&self, tier: Tier) -> Vec<(&'static str, u64)> {
         let q = if tier == Tier::Quick { 1 } else { 30 };
         vec![("nontrivial", 5000 * q), ("level1-changes-ir", 8000 * q)]
